@@ -522,6 +522,21 @@ mut("listpair: slice deletion treated as one element (revert of fix F13)", ["R-L
         for value in removed_values:
             value.set_modeling_obj_container(None, None)''', '''        value = self[index]
         value.set_modeling_obj_container(None, None)''')], ["__delitem__", "slice"])
+mut("attach: replace primitive refuses only after it has mutated (revert of fix F20, first half)", ["R-ATTACH"],
+    [("abstract_modeling_classes/object_linked_to_modeling_obj.py",
+      '''        new_value_container = getattr(new_value, "modeling_obj_container", None)
+        if new_value_container is not None and new_value_container != mod_obj_container:
+            # Refuse before anything is modified
+            raise PermissionError(
+                f"{new_value} is already linked to {new_value_container.id} and is trying to be linked to "
+                f"{mod_obj_container.id}.")
+''', "")], ["refuses after it has mutated"])
+mut("txn: rollback restores pairs that were never applied (revert of fix F20, second half)", ["R-TXN"],
+    [(MU, "            if new_value.modeling_obj_container is not None and previous_value.modeling_obj_container is None:",
+      "            if new_value.modeling_obj_container is not None:")], ["never applied"])
+twin("txn: rollback guard written the other way round", ["R-TXN"],
+     [(MU, "            if new_value.modeling_obj_container is not None and previous_value.modeling_obj_container is None:",
+       "            if previous_value.modeling_obj_container is None and new_value.modeling_obj_container is not None:")])
 mut("listsib: extend iterates its argument while appending (revert of fix F19)", ["R-LISTSIB"],
     [(LL, "        for value in list(values):\n            self.append(value)", "        for value in values:\n            self.append(value)")],
     ["extend", "snapshot"])
